@@ -12,7 +12,7 @@ import TlsProofs.Suites
   `specObsOf s v`   the observables that meaning prescribes in version v
 -/
 namespace C20
-open Tls.Suites Tls.Gen.Suites
+open Tls.Suites Tls.Gen.Suites Tls.Gen.KexChains
 
 /-- the selectors found in the tree are the ones mirrored; the model of every selector reproduces
     the real selector's output (computed by the translator on the tree under check, with the
@@ -26,7 +26,7 @@ theorem selectors_match_generated :
     modelSelectorUnion = selectorUnion := by
   decide +kernel
 
-example : selectorOut.length = 60 ∧ selectorUnion ≠ [] ∧ translatorProblems = [] := by decide +kernel
+example : selectorOut.length = 60 ∧ selectorUnion ≠ [] ∧ Tls.Gen.Suites.translatorProblems = [] := by decide +kernel
 
 /-- For every suite × version × role that can be negotiated: the registered name parses, and key
     exchange, certificate requirement and admissible certificate kinds, ServerKeyExchange presence,
@@ -73,6 +73,63 @@ example : 0x003c ∈ filterForVersion [0x003c] (3, 3) (3, 3) ∧ 0x003c ∉ filt
     0x1301 ∉ filterForVersion [0x1301] (3, 3) (3, 3) ∧ 0x002f ∉ filterForVersion [0x002f] (3, 4) (3, 4) := by
   decide +kernel
 
+/-! ### the key-exchange if-chains, as read from the AST of tlsconnection.py on this run -/
+
+/-- the translator classified every test and every branch of the chains it looks for -/
+theorem chains_fully_classified : chainUnknowns = [] := by decide +kernel
+
+/-- for every suite that can be negotiated below TLS 1.3 (every selectable suite that is not a TLS 1.3
+    suite: by `selectors_match_generated` these are the suites of all negotiable triples with version
+    ≤ 3.3; the chains do not look at the version) and for both roles, the chain of that role selects a
+    KeyExchange class, and it is of the key-exchange family the registered name denotes -/
+theorem chains_match_iana :
+    ∀ r ∈ [Role.client, Role.server], ∀ s ∈ selectorUnion, isIn s tls13Suites = false →
+      (chainKex r s).isSome = true ∧ chainKex r s = (semOf s).map (·.kex) := by
+  decide +kernel
+
+example : chainKex .client 0x0034 = some .ffdhe ∧ chainKex .server 0xc02b = some .ecdhe ∧
+    chainKex .client 0x002f = some .rsa ∧ chainKex .server 0xc01d = some .srp := by decide +kernel
+
+/-- the chains are exhaustive on selectable suites: the server chain never falls through to
+    `assert False`, and the client's final `else` (RSA key transport) is reached exactly by the suites
+    whose name says RSA key exchange -/
+theorem chains_exhaustive :
+    ∀ s ∈ selectorUnion, isIn s tls13Suites = false →
+      ((serverKexChain.eval s).bind id).isSome = true ∧
+      (clientKexClass s).isSome = true ∧
+      (clientKexClass s = some .RSAKeyExchange ↔ (semOf s).map (·.kex) = some Kex.rsa) := by
+  decide +kernel
+
+/-- client and server pick the same key exchange for every selectable suite; the server's class is the
+    client's, or its anonymous counterpart exactly when the name says the exchange is anonymous -/
+theorem client_server_agree :
+    ∀ s ∈ selectorUnion, isIn s tls13Suites = false →
+      chainKex .client s = chainKex .server s ∧ (chainKex .client s).isSome = true ∧
+      ((serverKexClass s).map (·.1) = clientKexClass s ∨
+        ((semOf s).map (·.auth) = some Auth.anon ∧
+          ((clientKexClass s, (serverKexClass s).map (·.1)) = (some .DHE_RSAKeyExchange, some .ADHKeyExchange) ∨
+           (clientKexClass s, (serverKexClass s).map (·.1)) = (some .ECDHE_RSAKeyExchange, some .AECDHKeyExchange)))) := by
+  decide +kernel
+
+/-- Certificate / ServerKeyExchange expectations agree with what the name denotes, on both sides: the
+    client reads a Certificate (and takes the key from it) exactly for certified suites, reads a
+    ServerKeyExchange exactly when the key exchange has one; the server's helper sends a Certificate, and
+    the server's Session records its chain, exactly for certified suites -/
+theorem certificate_expectation_matches :
+    ∀ s ∈ selectorUnion, isIn s tls13Suites = false →
+      clientExpectsCertificate s = (semOf s).map specCertified ∧
+      clientChecksChain s = (semOf s).map specCertified ∧
+      clientExpectsSKE s = (semOf s).map specSke ∧
+      (serverKexClass s).map (·.2) = (semOf s).map specCertified ∧
+      serverRecordsChain s = (semOf s).map specCertified ∧
+      (semOf s).isSome = true := by
+  decide +kernel
+
+example : clientExpectsCertificate 0x0032 = some true ∧ clientExpectsCertificate 0x0034 = some false ∧
+    clientExpectsSKE 0x002f = some false ∧ serverRecordsChain 0x0032 = some true ∧
+    (serverKexClass 0xc01e).map (·.2) = some true ∧ (serverKexClass 0xc01d).map (·.2) = some false := by
+  decide +kernel
+
 /-- the client's guard on the ServerHello: whatever list the client offered and whatever number a
     (possibly misbehaving) server puts into its ServerHello, the suite is accepted for the negotiated
     version only if its registered name defines it for that version -/
@@ -94,7 +151,14 @@ example : clientAcceptsSuite [0xc02f, 0x1301] (3, 4) 0x1301 = true ∧
 /-- every negotiable (suite, version, role) is one the name defines for that version -/
 theorem negotiated_only_in_defining_version :
     ∀ t ∈ negotiableTriples, ∃ sem, semOf t.1 = some sem ∧ sem.definedIn t.2.1 = true := by
-  decide +kernel
+  have h : ∀ s ∈ ssl3Suites ++ tls12Suites ++ tls13Suites, ∀ v ∈ allVersions,
+      versionIncludes v v s = true → ∃ sem, semOf s = some sem ∧ sem.definedIn v = true := by
+    decide +kernel
+  intro t ht
+  obtain ⟨r, v, hv, hneg⟩ := mem_negotiableTriples ht
+  have hinc : versionIncludes v v t.1 = true := negotiable_versionIncludes hneg.2
+  rw [hneg.1]
+  exact h t.1 (versionIncludes_mem hinc) v hv hinc
 
 example : negotiableTriples ≠ [] := by decide +kernel
 
